@@ -177,7 +177,9 @@ def switch_constraints(fn, tags):
 
 
 def assigned_tags(fn, tags):
-    """Tags assigned to this->type_ in fn: [(stmt id, tagname)]"""
+    """Tags assigned to this->type_ in fn: [(stmt id, tagname)].  A call on
+    this to a helper whose body stores one of its parameters into type_
+    counts as an assignment of the constant passed for that parameter."""
     byval = {v: n for n, v in tags.items()}
     out = []
     for i in fn.walk():
@@ -186,8 +188,48 @@ def assigned_tags(fn, tags):
             r = fn.s(fn.strip(st["c"][1], casts=True))
             if "cv" in r and int(r["cv"]) in byval:
                 out.append((i, byval[int(r["cv"])]))
+            elif r["k"] == "DeclRefExpr" and r["ref"]["k"] == "parm" and fn.prog is not None:
+                # a helper forwarding its parameter: the tags its callers pass
+                idx = [n for n, p_ in enumerate(fn.params) if p_["d"] == r["ref"]["d"]]
+                ts = set()
+                ok = bool(idx)
+                ncall = 0
+                for g in fn.prog.fns.values():
+                    for ci, cst in g.calls():
+                        if cst["callee"]["key"] != fn.key:
+                            continue
+                        ncall += 1
+                        if idx[0] >= len(cst.get("args", [])):
+                            ok = False
+                            continue
+                        a = g.s(g.strip(cst["args"][idx[0]], casts=True))
+                        v = g.const(cst["args"][idx[0]])
+                        if v is None and "cv" in a:
+                            v = int(a["cv"])
+                        if v in byval:
+                            ts.add(byval[v])
+                        else:
+                            ok = False
+                out.append((i, frozenset(ts) if ok and ncall else None))
             else:
                 out.append((i, None))
+        elif st["k"] == "CXXMemberCallExpr" and "callee" in st and fn.prog is not None:
+            o = fn.s(fn.strip(st["obj"], casts=True)) if "obj" in st else {}
+            callee = fn.prog.fns.get(st["callee"]["key"])
+            if o.get("k") != "CXXThisExpr" or callee is None or not callee.cls.endswith("VariantData"):
+                continue
+            for j in callee.walk():
+                sj = callee.s(j)
+                if sj["k"] == "BinaryOperator" and sj["op"] == "=" and is_type_field(callee, sj["c"][0]):
+                    r = callee.s(callee.strip(sj["c"][1], casts=True))
+                    if r["k"] == "DeclRefExpr" and r["ref"]["k"] == "parm":
+                        idx = [n for n, p_ in enumerate(callee.params) if p_["d"] == r["ref"]["d"]]
+                        if idx and idx[0] < len(st.get("args", [])):
+                            a = fn.s(fn.strip(st["args"][idx[0]], casts=True))
+                            v = fn.const(st["args"][idx[0]])
+                            if v is None and "cv" in a:
+                                v = int(a["cv"])
+                            out.append((i, byval.get(v)))
     return out
 
 
@@ -303,8 +345,8 @@ def run(ctx, prog, rule="R-TAG"):
                             if fn.stmt_dominates(j, pick[0]):
                                 pick = (j, t)
                 if pick is not None and pick[1] is not None:
-                    possible = {pick[1]}
-                    basis.append("type_ = %s assigned on the same path" % pick[1])
+                    possible = set(pick[1]) if isinstance(pick[1], frozenset) else {pick[1]}
+                    basis.append("type_ = %s assigned on the same path" % (sorted(pick[1]) if isinstance(pick[1], frozenset) else pick[1]))
             inst = "%s: %s %s" % (fn.short, "write" if wr else "read", member)
             if possible is None:
                 ctx.ob(rule, inst, None, fn.loc(i),
